@@ -24,6 +24,7 @@ use std::{result, thread};
 use std::sync::Arc;
 
 use glob::{glob, Paths};
+use libfs::is_same_file;
 use libxcp::config::{Config, Reflink};
 use libxcp::drivers::load_driver;
 use libxcp::errors::{Result, XcpError};
@@ -102,6 +103,19 @@ fn names_contents(source: &Path) -> bool {
     matches!(name, b"" | b"." | b"..")
 }
 
+/// Would `target` be created inside the directory `dir`? Judged by
+/// the canonical location of the closest existing ancestor of `target`.
+fn is_inside(target: &Path, dir: &Path) -> bool {
+    let Ok(dir) = dir.canonicalize() else { return false };
+    for anc in target.ancestors() {
+        let anc = if anc.as_os_str().is_empty() { Path::new(".") } else { anc };
+        if let Ok(real) = anc.canonicalize() {
+            return real.starts_with(&dir);
+        }
+    }
+    false
+}
+
 fn main() -> Result<()> {
     let opts = Opts::from_args()?;
     init_logging(&opts)?;
@@ -157,6 +171,21 @@ fn main() -> Result<()> {
 
         if source == &target_base {
             return Err(XcpError::InvalidSource("Source is same as destination").into());
+        }
+
+        // The same three cases under other spellings, through links
+        // or for one source among many: they can only fail, and must
+        // do so before any other source has been copied.
+        if target_base.exists() {
+            if is_same_file(source, &target_base)? {
+                return Err(XcpError::InvalidSource("Source is same as destination").into());
+            }
+            if source.is_dir() && !target_base.is_dir() {
+                return Err(XcpError::InvalidDestination("Cannot copy a directory to a file.").into());
+            }
+        }
+        if source.is_dir() && (opts.dereference || !source.is_symlink()) && is_inside(&target_base, source) {
+            return Err(XcpError::InvalidSource("Cannot copy a directory into itself").into());
         }
 
         // Two sources with the same name would be written to the
